@@ -318,6 +318,12 @@ class CallMixin:
             import copy as _c
 
             return _c.copy(args[0])
+        if isinstance(fv, BoundMethod) and fv.name == "fromkeys" and 1 <= len(args) <= 2 and not kwargs:
+            # dict.fromkeys(xs[, v]) — the order-preserving de-duplication idiom `list(dict.fromkeys(xs))`
+            base = fv.recv
+            items = self.concrete_iter(args[0]) if isinstance(base, BuiltinRef) and base.name == "dict" else None
+            if items is not None and all(_h(x) for x in items):
+                return dict.fromkeys(items, args[1] if len(args) == 2 else None)
         if qual == "itertools.cycle" and len(args) == 1:
             items = self.concrete_iter(args[0])
             if items:
